@@ -23,6 +23,7 @@
 (*   take       .take(S)                       slice     topo[lo:hi]       *)
 (*   select     .subset(take(S))               remove    topo - take(S)    *)
 (*   union      take|take, subset|subset       trim      .trim(+-(x_d-c))  *)
+(*   trim2      .trim(max / min of two such half planes)                   *)
 (* and the complement  topo - topo.trim(..)  kept in `comp` after a trim.  *)
 (* Boundary, interfaces and the named boundary groups are state functions  *)
 (* (observations), see Prediction.                                         *)
@@ -254,6 +255,18 @@ TrimCells(cs, d, c, sgn, m) ==
 TrimComp(cs, d, c, sgn, m) ==
     {k \in {[lv |-> x.lv, ix |-> x.ix, hf |-> x.hf, at |-> {a \in x.at : ~(IF sgn = 1 THEN a[d] >= c ELSE a[d] < c)}, mz |-> NewMz(x, d, c, m)] : x \in cs} : k.at # {}}
 
+\* trim by the level set max (mode 0: union of two half planes, not convex) or min (mode 1: intersection) of
+\* s1 (x - c1) and s2 (y - c2), both cuts aligned with the grid of the maxrefine-th descendants of every element they
+\* cross (then no leaf is sliced and the trimmed elements are exact unions of descendants).  Not for triangles: a
+\* removed sub-triangle can have all three vertices on the zero set, and trim only samples vertices.
+Half(a, d, c, sgn) == IF sgn = 1 THEN a[d] >= c ELSE a[d] < c
+Trim2Keep(a, q) == IF q[6] = 0 THEN Half(a, 1, q[1], q[2]) \/ Half(a, 2, q[3], q[4]) ELSE Half(a, 1, q[1], q[2]) /\ Half(a, 2, q[3], q[4])
+Trim2OK(x, q) == /\ x.mz = {}
+                 /\ Straddles(x.lv, x.ix, 1, q[1]) => AlignDepth(x.lv[1], q[1]) <= q[5]
+                 /\ Straddles(x.lv, x.ix, 2, q[3]) => AlignDepth(x.lv[2], q[3]) <= q[5]
+Trim2Cells(cs, q) == {k \in {[lv |-> x.lv, ix |-> x.ix, hf |-> x.hf, at |-> {a \in x.at : Trim2Keep(a, q)}, mz |-> {}] : x \in cs} : k.at # {}}
+Trim2Comp(cs, q) == {k \in {[lv |-> x.lv, ix |-> x.ix, hf |-> x.hf, at |-> {a \in x.at : ~Trim2Keep(a, q)}, mz |-> {}] : x \in cs} : k.at # {}}
+
 \* slice bookkeeping sg = [lv, o, n] per direction: level of the structured base, origin and length
 \* of the current slice in elements of that level
 SliceKeeps(c, d, lo, hi) ==
@@ -295,7 +308,18 @@ OpsFor(name) ==
                               /\ \E z \in cells : \E a \in z.at : TrimKeep(a, y[1], y[2], y[3])
                               /\ \A z \in cells : TrimOK(z, y[1], y[2], y[4])}}
            ELSE {}
-OpNames == {"refine", "refspace", "refby", "hierand", "take", "select", "remove", "union", "slice", "trim"}
+      [] name = "trim2" ->
+           IF ~IsMul /\ Dim = 2 /\ ~base.tri
+           THEN {MkOp("trim2", q, {}, {}) :
+                    q \in {y \in {<<c1, s1, c2, s2, m, mode>> : c1 \in 1..(NAtoms(1) - 1), s1 \in {1, -1}, c2 \in 1..(NAtoms(2) - 1), s2 \in {1, -1},
+                                                                m \in TrimRef, mode \in {0, 1}} :
+                              /\ y[6] = 1 => (y[2] = 1 /\ y[4] = 1)         \* the convex variant only in one orientation
+                              /\ \A m \in TrimRef : m <= y[5]               \* with the largest maxrefine
+                              /\ \A z \in cells : Trim2OK(z, y)
+                              /\ Trim2Cells(cells, y) # {}
+                              /\ Trim2Comp(cells, y) # {}}}
+           ELSE {}
+OpNames == {"refine", "refspace", "refby", "hierand", "take", "select", "remove", "union", "slice", "trim", "trim2"}
 OpsOf == UNION {OpsFor(name) : name \in OpNames}
 
 \* the state after operation o: [cells, comp, st, sg]
@@ -325,6 +349,8 @@ Apply(o) ==
       [] o.op = "trim" ->
            [cells |-> TrimCells(cells, o.a[1], o.a[2], o.a[3], o.a[4]), comp |-> TrimComp(cells, o.a[1], o.a[2], o.a[3], o.a[4]),
             st |-> StAfterSub(st), sg |-> sg]
+      [] o.op = "trim2" ->
+           [cells |-> Trim2Cells(cells, o.a), comp |-> Trim2Comp(cells, o.a), st |-> StAfterSub(st), sg |-> sg]
 
 Init == /\ base \in Bases
         /\ cells = BaseCells
@@ -347,7 +373,8 @@ Remove == Len(hist) < MaxOps /\ \E o \in OpsFor("remove") : Step(o)
 Union == Len(hist) < MaxOps /\ \E o \in OpsFor("union") : Step(o)
 Slice == Len(hist) < MaxOps /\ \E o \in OpsFor("slice") : Step(o)
 Trim == Len(hist) < MaxOps /\ \E o \in OpsFor("trim") : Step(o)
-Next == Refine \/ RefSpace \/ RefBy \/ HierAnd \/ Take \/ Select \/ Remove \/ Union \/ Slice \/ Trim
+Trim2 == Len(hist) < MaxOps /\ \E o \in OpsFor("trim2") : Step(o)
+Next == Refine \/ RefSpace \/ RefBy \/ HierAnd \/ Take \/ Select \/ Remove \/ Union \/ Slice \/ Trim \/ Trim2
 Spec == Init /\ [][Next]_vars
 
 (***************************************************************************)
@@ -355,7 +382,7 @@ Spec == Init /\ [][Next]_vars
 (* (emitted for the replay against the implementation)                     *)
 (***************************************************************************)
 CellObs(cs) == {[key |-> Key(c), v |-> CellVol2(c), m |-> CellMom6(c)] : c \in cs}
-IsTrim == Len(hist) > 0 /\ hist[Len(hist)].op = "trim"
+IsTrim == Len(hist) > 0 /\ hist[Len(hist)].op \in {"trim", "trim2"}
 \* named boundary groups of rectilinear and unitsquare meshes: the sides of the (sliced) box
 SidePlane(d, s) == PosW(2 * (sg.o[d] + (IF s = 1 THEN sg.n[d] ELSE 0)) * TpP2(L - sg.lv[d]), d)
 NowPeriodic(d) == base.per[d] /\ sg.o[d] = 0 /\ sg.n[d] = base.n[d] * TpP2(sg.lv[d])
@@ -418,7 +445,7 @@ StepConserves ==
              [] o.op \in {"take", "select", "remove", "union", "slice"} ->
                   /\ cells' \subseteq cells
                   /\ cells' # {}
-             [] o.op = "trim" ->
+             [] o.op \in {"trim", "trim2"} ->
                   /\ \A c \in cells : LET a == UNION {k.at : k \in {x \in cells' : Key(x) = Key(c)}}
                                           b == UNION {k.at : k \in {x \in comp' : Key(x) = Key(c)}}
                                       IN a \cup b = c.at /\ a \cap b = {}
